@@ -448,8 +448,9 @@ class NodeContext:
         pending = self.pending_marks
         for mark in pending:
             if (
-                (self.type is not None and self.type.allows_mark_type(mark.type))
-                or mark_may_apply(mark.type, next_type)
+                self.type.allows_mark_type(mark.type)
+                if self.type is not None
+                else mark_may_apply(mark.type, next_type)
             ) and not mark.is_in_set(self.active_marks):
                 self.active_marks = mark.add_to_set(self.active_marks)
                 self.pending_marks = mark.remove_from_set(self.pending_marks)
